@@ -98,7 +98,10 @@ def lemma_proba(timeout_ms):
     return out
 
 
-def lemma_forward(timeout_ms):
+FORWARD_CONFIGS = ["weights", "uniform", "cum", "single"]
+
+
+def lemma_forward(timeout_ms, only=None):
     common.setup_path()
     tally = Tally()
     out = {"lemma": "L3 forward", "status": "ok", "paths": 0, "witnesses": [], "encoded": {}, "stubs": [],
@@ -111,6 +114,9 @@ def lemma_forward(timeout_ms):
         ("single", (["A"],), {"weights": [0.5]}),
     ]
     for name, args, kwargs in configs:
+        if only is not None and name != only:
+            continue
+
         def setup(it):
             it.call_overrides["deterministic_proba"] = proba_recorder
         run = api.run(api.call_module_function(BINNING, "deterministic_choice", [uid] + list(args), kwargs),
@@ -265,7 +271,9 @@ def known_answers():
 def _dispatch(args):
     if len(args) == 2:
         name, timeout_ms = args
-        return lemma_proba(timeout_ms) if name == "proba" else lemma_forward(timeout_ms)
+        if name == "proba":
+            return lemma_proba(timeout_ms)
+        return lemma_forward(timeout_ms, only=name.split(":")[1])
     return lemma_key(args)
 
 
@@ -279,7 +287,7 @@ def main(tier):
     for bname, prog in fam:
         for ty in sf.typings(prog.splitters, tier, common.seed()):
             items.append((bname, prog, ty, timeout_ms))
-    results = common.pmap(_dispatch, [("proba", timeout_ms), ("forward", timeout_ms)] + items, chunksize=2)
+    results = common.pmap(_dispatch, [("proba", timeout_ms)] + [("forward:" + c, timeout_ms) for c in FORWARD_CONFIGS] + items, chunksize=2)
     n_ka, bad_ka = known_answers()
 
     total = Tally()
